@@ -62,7 +62,10 @@ def _seed_term_ok(fx, p, t, f, depth):
         if not has_default and not sites:
             return False, f'parameter {name!r} has no default and no package caller fixes it'
         for caller, ce in sites:
-            bound = fx._bind(f, ce.call[2], ce.call[3])
+            cargs = ce.call[2]
+            if f.name == '__init__' and f.cls is not None and len(cargs) + len(ce.call[3]) < len(f.params) + len(f.node.args.kwonlyargs):
+                cargs = (('unk', 'self'),) + tuple(cargs)       # K(a, b) calls K.__init__(self, a, b)
+            bound = fx._bind(f, cargs, ce.call[3])
             v = bound.get(name)
             if v is None:
                 if not has_default:
